@@ -379,9 +379,10 @@ func (b *Builder) genField(ctx pairCtx, src, dst *SDecl, name, mech string) {
 		path := joinPath(ctx.dstPath, last)
 		arg := path
 		kind := "exact"
-		switch b.R.Intn(6) {
+		quoted := strings.ReplaceAll(path, ".", `\.`)
+		switch b.R.Intn(9) {
 		case 0:
-			arg = "/^" + strings.ReplaceAll(path, ".", `\.`) + "$/"
+			arg = "/^" + quoted + "$/"
 			kind = "regexp-anchored"
 		case 1:
 			arg = "/" + last + "/"
@@ -390,6 +391,18 @@ func (b *Builder) genField(ctx pairCtx, src, dst *SDecl, name, mech string) {
 			// case-variant spelling: only matches under :case:off
 			arg = strings.ToLower(path)
 			kind = "exact-lower"
+		case 3, 4:
+			// a construct spliced in at one letter of the last segment: counted repetition, classes
+			// (also with a comma inside), alternation, escapes; the reference model decides what it matches
+			i := len(quoted) - 1 - b.R.Intn(len(last))
+			c := string(quoted[i])
+			repl := []string{c + "{1,2}", c + "{1,}", "[" + c + ",]", "[^,]", "(?:" + c + "|,)", "(" + c + ")", `\x{` + fmt.Sprintf("%X", quoted[i]) + "}", c + "?" + c, `\w`, "[[:alnum:]]", c + "{0,0}" + c}[b.R.Intn(11)]
+			arg = "/^" + quoted[:i] + repl + quoted[i+1:] + "$/"
+			kind = "regexp-construct"
+		case 5:
+			// near misses that must NOT match (the field stays governed by its other rule)
+			arg = []string{"/^" + quoted + "{2,3}$/", "/^" + quoted + ",$/", "/^(?:" + quoted + "){2,}$/", "/^" + quoted + "[,;]$/", "/^" + quoted + "$x/"}[b.R.Intn(5)]
+			kind = "regexp-nearmiss"
 		}
 		n := Notation{Name: "skip", Args: []string{arg}}
 		// position: before or after the notations the inner mechanism added
